@@ -354,6 +354,8 @@ def case_precedence(_):
             'has_layered'))) else None
         cfg_w = bool(B(z3.Bool('cfg_has_workers')))
         cfg_l = bool(B(z3.Bool('cfg_has_layered')))
+        tpath = '/T_path' if bool(B(z3.Bool('term_path'))) else None
+        cpath = '/C_path' if bool(B(z3.Bool('cfg_path'))) else None
         names = {}
         for k in ('survey', 'model', 'output', 'save', 'load'):
             names[k] = (f"T_{k}" if bool(B(z3.Bool(f"term_{k}"))) else None,
@@ -366,8 +368,11 @@ def case_precedence(_):
         for k, (t_, c_) in names.items():
             if c_:
                 content['files'][k] = Opt(c_)
-        over = dict(nproc=tn, layered=tl)
+        if cpath:
+            content['files']['path'] = Opt(cpath)
+        over = dict(nproc=tn, layered=tl, path=tpath)
         over.update({k: t_ for k, (t_, c_) in names.items()})
+        names['path'] = (tpath, cpath)
         return run_parser(E, content, over), tn, tl, cfg_w, cfg_l, names
     try:
         for (r, tn, tl, cfg_w, cfg_l, names), pc, tr in c.explore(
@@ -401,6 +406,12 @@ def case_precedence(_):
                     bad = "layered is not the configured value"
             defaults = dict(survey='survey', model='model',
                             output='emg3d_out', save=None, load=None)
+            tpath, cpath = names.pop('path')
+            wantp = os.path.abspath(tpath or cpath or '.')
+            if os.path.dirname(str(out['files']['survey'])) != wantp:
+                bad = (f"path: files are looked for in "
+                       f"{os.path.dirname(str(out['files']['survey']))}, "
+                       f"terminal={tpath!r}, configuration={cpath!r}")
             for k, (t_, c_) in names.items():
                 want = t_ or c_ or defaults[k]
                 got = out['files'][k]
@@ -892,14 +903,16 @@ def case_main(_):
                cex=dict(kind='main', why=bad) if bad else None)]
 
 
-def case_run_load(function):
+def case_run_load(case):
     """cli.run.simulation, --load with --clean: the loaded simulation is
     cleaned of everything computed, gets the new model, then computes."""
+    function, with_gopts = case
     E = shadow.load()
     set_ctx(Ctx(timeout_ms=30000))
     State.OBJECT_ALLOC = True
     R = E.cli.run
-    grp = f"run.simulation --load --clean function={function}"
+    grp = (f"run.simulation --load --clean function={function} "
+           f"{'with' if with_gopts else 'without'} [gridding_opts]")
     events = []
 
     class FakeData:
@@ -956,8 +969,10 @@ def case_run_load(function):
         debug = info
     cfg = {'files': {'survey': 'S', 'model': 'M.h5', 'output': 'O',
                      'save': 'SIM.h5', 'load': 'SIM.h5', 'log': 'L'},
-           'simulation_options': {'gridding_opts': {}, 'layered': False},
+           'simulation_options': {'layered': False},
            'data': {}, 'noise_kwargs': {}}
+    if with_gopts:
+        cfg['simulation_options']['gridding_opts'] = {'center': [0, 0, 0]}
     term = dict(function=function, verbosity=0, dry_run=False, clean=True,
                 config_file='.')
     saved = (R.parser.parse_config_file, R.check_files, R.initiate_logger,
@@ -968,13 +983,17 @@ def case_run_load(function):
     R.io.load = lambda f, **k: ({'model': 'NEWMODEL'}, 'i\nj')
     R.io.save = lambda f, **k: 'x\ny'
     R.simulations.Simulation = FakeSim
+    bad = None
     try:
         R.simulation({})
+    except Exception as e:      # noqa
+        bad = f"raised {e!r}"[:200]
     finally:
         (R.parser.parse_config_file, R.check_files, R.initiate_logger,
          R.io.load, R.io.save, R.simulations.Simulation) = saved
-    bad = None
-    if ('clean', 'computed') not in events:
+    if bad:
+        pass
+    elif ('clean', 'computed') not in events:
         bad = (f"the loaded simulation is not cleaned of its computed "
                f"results: {[e for e in events if e[0] == 'clean']}")
     elif ('set', 'model', 'NEWMODEL') not in events:
@@ -991,8 +1010,8 @@ def case_run_load(function):
                "simulation saved again", 'cex' if bad else 'held', group=grp,
                cls='concrete', nontrivial=False, note=bad or '',
                key=f"cli.run --load --clean: {bad}" if bad else None,
-               cex=dict(kind='run', function=function, why=bad)
-               if bad else None)]
+               cex=dict(kind='runload', function=function,
+                        with_gopts=with_gopts, why=bad) if bad else None)]
 
 
 # --------------------------------------------------------------------------
@@ -1049,29 +1068,99 @@ def replay(cex):
                                    (msg or 'accepted'))
             return False, f"real parser routes [{sec}] {key} -> {got!r}"
         if kind == 'precedence':
-            out, term = parse("[simulation]\nmax_workers=3\n[files]\n"
-                              "survey=C_survey\n", nproc=7, survey='T_s')
-            bad = out['simulation_options'].get('max_workers') != 7 or \
-                'T_s' not in out['files']['survey']
-            out2, _ = parse("[simulation]\nmax_workers=3\n")
-            bad = bad or out2['simulation_options'].get('max_workers') != 3
+            try:
+                out, term = parse("[simulation]\nmax_workers=3\n[files]\n"
+                                  "survey=C_survey\nmodel=C_model\n",
+                                  nproc=7, survey='T_s')
+                bad = out['simulation_options'].get('max_workers') != 7 or \
+                    'T_s' not in out['files']['survey'] or \
+                    'C_model' not in out['files']['model']
+                out2, _ = parse("[simulation]\nmax_workers=3\n")
+                bad = bad or out2['simulation_options'].get(
+                    'max_workers') != 3
+                out3, _ = parse("[files]\npath=/C_path\n", path='/T_path')
+                bad = bad or os.path.dirname(
+                    out3['files']['survey']) != '/T_path'
+                out4, _ = parse("[files]\npath=/C_path\n")
+                bad = bad or os.path.dirname(
+                    out4['files']['survey']) != '/C_path'
+            except Exception as e:      # noqa
+                return True, (f"real parser with an option given both in "
+                              f"the file and on the command line: {e!r}"
+                              )[:250]
             return bad, "real parser precedence terminal > file: " + (
                 'violated' if bad else 'ok')
         if kind == 'run':
             return True, 'structural (recording stubs): '+str(cex['why'])
+        if kind == 'runload':
+            return _replay_runload(cex, tmp)
         if kind == 'main':
-            a = _main_args(['.'])
-            bad = a.get('layered', None) is not None or \
-                a.get('nproc', None) is not None or any(
-                    a.get(k_) is not None for k_ in
-                    ('survey', 'model', 'output', 'save', 'load', 'cache',
-                     'path'))
-            return bad, ("real main(): options not given arrive as " +
-                         str({k_: a.get(k_) for k_ in ('layered', 'nproc',
-                                                       'survey', 'save')}))
+            fn = os.path.join(tmp, 'emg3d.cfg')
+            with open(fn, 'w') as f:
+                f.write("[simulation]\nmax_workers=3\nlayered=True\n"
+                        "[files]\nsurvey=C_survey\nsave=C_save\n")
+            msgs = []
+            try:
+                a = dict(_main_args([fn]))
+                out, term = P.parse_config_file(a)
+                so = out['simulation_options']
+                if so.get('max_workers') != 3 or so.get('layered') is not \
+                        True or 'C_survey' not in out['files']['survey']:
+                    msgs.append(f"options not given on the command line "
+                                f"override the file: {so}")
+                a = dict(_main_args([fn, '-n', '7', '--survey', 'T_s']))
+                out, term = P.parse_config_file(a)
+                if out['simulation_options'].get('max_workers') != 7 or \
+                        'T_s' not in out['files']['survey']:
+                    msgs.append("given options do not override the file")
+            except Exception as e:      # noqa
+                msgs.append(f"raised {e!r}"[:200])
+            return bool(msgs), ("real main() + parser: " +
+                                ('; '.join(msgs) or 'ok'))
     finally:
         shutil.rmtree(tmp, ignore_errors=True)
     return False, 'unknown kind'
+
+
+def _replay_runload(cex, tmp):
+    """Real CLI functions: a forward run saved with --save, then --load
+    --clean with another model (real files, tiny real solves)."""
+    import emg3d
+    from emg3d.cli import run as R
+    grid = emg3d.TensorMesh([np.ones(8)*100]*3, (-400, -400, -400))
+    survey = emg3d.Survey(
+        [emg3d.TxElectricDipole((0, 0, 0, 0, 0))],
+        [emg3d.RxElectricPoint((100, 50, 0, 0, 0))], [1.0],
+        data=np.ones((1, 1, 1))+0j, noise_floor=1e-15, relative_error=0.05)
+    emg3d.save(os.path.join(tmp, 'survey.h5'), survey=survey, verb=0)
+    emg3d.save(os.path.join(tmp, 'model.h5'),
+               model=emg3d.Model(grid, 1.0), verb=0)
+    emg3d.save(os.path.join(tmp, 'model2.h5'),
+               model=emg3d.Model(grid, 2.0), verb=0)
+    cfgf = os.path.join(tmp, 'emg3d.cfg')
+    with open(cfgf, 'w') as f:
+        f.write("[simulation]\ngridding=same\n" +
+                ("[gridding_opts]\n" if cex.get('with_gopts') else ""))
+    base = dict(config=cfgf, verbosity=-1, nproc=1, dry_run=False,
+                clean=False, layered=None, forward=False, misfit=True,
+                gradient=False, path=tmp, survey=None, model=None,
+                output=None, save='sim.h5', load=None, cache=None)
+    try:
+        R.simulation(dict(base))
+        second = dict(base, save=None, load='sim.h5', clean=True,
+                      model='model2.h5', output='out2')
+        R.simulation(second)
+        out = emg3d.load(os.path.join(tmp, 'out2.h5'), verb=0)
+        sim = emg3d.Simulation(survey, emg3d.Model(grid, 2.0),
+                               gridding='same', max_workers=1, verb=-1,
+                               tqdm_opts=False)
+        want = float(sim.misfit)
+        got = float(np.asarray(out['misfit']))
+        bad = not np.isclose(got, want, rtol=1e-4, atol=0)
+        return bad, (f"real CLI --load --clean with a new model: misfit "
+                     f"{got:.6e}, API with that model {want:.6e}")
+    except Exception as e:      # noqa
+        return True, f"real CLI --load --clean raised {e!r}"[:250]
 
 
 def _dispatch(job):
@@ -1094,8 +1183,9 @@ def main(tier):
     jobs += [('case_unknown', s) for s in docs]
     jobs += [('case_precedence', None)]
     jobs += [('case_run', f) for f in ('forward', 'misfit', 'gradient')]
-    jobs += [('case_run_load', f) for f in ('forward', 'misfit',
-                                            'gradient')]
+    jobs += [('case_run_load', (f, g)) for f in ('forward', 'misfit',
+                                                  'gradient')
+             for g in (True, False)]
     jobs += [('case_main', None)]
     obs = pmap(_dispatch, jobs)
     run.add(obs)
